@@ -86,6 +86,16 @@ def special_objects():
     out.append(B.PostgreSQLQuery.into(T_("t")).insert(1, "x").on_conflict("a").do_update("b", "y").returning("*"))
     out.append(B.MSSQLQuery.from_(T_("t")).select("a").top(3).limit(2))
     out.append(P.Query.create_table("x").columns("a", ("b", "INT")).unique("a", "b").primary_key("a"))
+    # the same name given more than once (a tempting place for set-based de-duplication, whose order follows the hash seed)
+    out.append(P.Query.create_table("x").columns("alpha", "beta", "gamma", "delta").unique("alpha", "beta", "gamma", "delta", "alpha")
+               .unique("delta", "delta", "beta").primary_key("gamma", "alpha", "beta", "gamma"))
+    out.append(P.Query.create_table("x").columns(("k1", "INT"), ("k2", "INT"), ("k1", "INT")).period_for("p", "k1", "k2").period_for("p", "k2", "k1"))
+    for qc in B.QUERY_CLASSES:
+        t, u = T_("t"), T_("u")
+        out.append(qc.from_(t).select(t.a, t.b, t.c, t.a, "b").groupby(t.c, t.a, t.b, t.c).orderby(t.b, t.a, t.b).for_update(of=("w", "t", "v", "w", "t")))
+        out.append(qc.from_(t).join(u).using("id", "kind", "zone", "id").select("*").force_index("i3", "i1", "i2", "i3").use_index("j2", "j1", "j2"))
+        out.append(qc.into(t).columns("c", "a", "b", "c").insert(1, 2, 3, 4))
+        out.append(qc.from_(t).select(t.a).where(t.a.isin(["z", "y", "x", "z", "y"])).where(t.b.isin([3, 1, 2, 3])))
     out.append(an.Rank().over(T_("t").a).orderby(T_("t").b))
     out.append(P.Case().when(T_("t").a == 1, "x").when(T_("t").a == 2, "y").else_("z"))
     return out
